@@ -409,6 +409,15 @@ func (t *Dense) ResetMask(val ...bool) error {
 	if len(val) > 0 {
 		fillValue = val[0]
 	}
+	if t.IsMaterializable() {
+		// the mask of a view is a window of its parent's mask: only the bits of the view's own elements
+		// are reset, as Zero does with the data
+		it := newFlatIterator(&t.AP)
+		for i, err := it.Next(); err == nil; i, err = it.Next() {
+			t.mask[i] = fillValue
+		}
+		return nil
+	}
 	memsetBools(t.mask, fillValue)
 	return nil
 }
